@@ -83,7 +83,11 @@ func (f *once) Call(s *slip.Scope, args slip.List, depth int) slip.Object {
 	if w == nil || len(args) != 1 {
 		return nil
 	}
+	// per task: two routines running the same code each take their turn once
 	k := slip.ObjectString(args[0])
+	if w.S != nil {
+		k = fmt.Sprintf("%d:%s", w.S.CurID(), k)
+	}
 	if w.once[k] {
 		return nil
 	}
